@@ -211,5 +211,5 @@ def r6(ctx):
 @rule("C05", "R7", "AGREE", "the reported MRF of cluster k is the very matrix points are scored against (train_inverse, unmodified)")
 def r7(ctx):
     from . import c04, c03
-    ctx.sub(c04.r5)     # markov_random_fields[k] = state.clusters[k].train_inverse
-    ctx.sub(c03.r4)     # train_inverse is the (filtered) optimiser result; nothing filters it again later
+    ctx.sub(c04.r5, only=("mrfs",))     # markov_random_fields[k] = state.clusters[k].train_inverse
+    ctx.sub(r3, only=("refresh:source",))  # ... and the kernel's precision matrix is that same train_inverse
